@@ -230,11 +230,22 @@ class Sim:
         try:
             with seams.quiet():
                 outcome, relaxed = self._apply(op, kind, n)
-        except Violation:
+        except (Violation, K.HarnessError):
             raise
+        except Exception as e:
+            self.stats["exceptions"][type(e).__name__] = self.stats["exceptions"].get(type(e).__name__, 0) + 1
+            tb = "".join(traceback.format_exc().splitlines(True)[-4:])
+            raise Violation("op-raised", f"{kind} on net {n} raised {type(e).__name__}: {e}\n{tb}")
         self.log.add(self.step, kind, n, outcome)
-        with seams.quiet():
-            self.check_all(touched=n, relaxed=relaxed)
+        try:
+            with seams.quiet():
+                self.check_all(touched=n, relaxed=relaxed)
+        except (Violation, K.HarnessError):
+            raise
+        except Exception as e:
+            tb = "".join(traceback.format_exc().splitlines(True)[-4:])
+            raise Violation("observation-raised", f"after {kind} (net {n}): reading a live network raised "
+                                                  f"{type(e).__name__}: {e}\n{tb}")
 
     def _expect_unchanged(self, n, what):
         obs = self.observe(n)
